@@ -1084,6 +1084,110 @@ impl Actor for Scanner {
     }
 }
 
+// ------------------------------------------------------------------- mass banner scan
+
+/// What the scanners this responder is built for do: a SYN to very many (address, port) pairs
+/// from one source, and on every SYN-ACK the handshake is completed with a short probe. Every
+/// connection validates its cookie, so the connection table grows by one entry per connection.
+pub struct BannerScan {
+    pub peer: usize,
+    pub a: Addr,
+    pub base_sport: u16,
+    pub n: u32,
+    pub start_us: u64,
+    pub gap_us: u64,
+    pub dports: Vec<u16>,
+    pub probe: Vec<u8>,
+    answered: std::collections::BTreeSet<(u16, u16)>,
+}
+
+impl BannerScan {
+    pub fn new(plan: &Plan, rng: &mut Rng, peer: usize, n: u32) -> BannerScan {
+        let v6 = rng.chance(1, 3);
+        let mut a = pick_addr(plan, rng, peer, v6, false);
+        a.dmac = plan.cfg.mac;
+        a.smac = plan.peers[peer].mac;
+        let probe = match rng.below(4) {
+            0 => b"x".to_vec(),
+            1 => b"GET / HTTP/1.0\r\n\r\n".to_vec(),
+            2 => b"\r\n".to_vec(),
+            _ => b"SSH-2.0-scan\r\n".to_vec(),
+        };
+        BannerScan {
+            peer,
+            a,
+            base_sport: rng.range(1024, 40000) as u16,
+            n,
+            start_us: rng.below(plan.horizon_us * 2 / 3 + 1),
+            gap_us: *rng.pick(&[5u64, 20, 100, 1000]),
+            dports: (0..rng.range(1, 4)).map(|_| rng.edge_port()).collect(),
+            probe,
+            answered: std::collections::BTreeSet::new(),
+        }
+    }
+    fn tuple(&self, i: u32) -> (u16, u16) {
+        (self.base_sport.wrapping_add((i % 20000) as u16), self.dports[(i / 20000) as usize % self.dports.len()].wrapping_add((i / 20000) as u16))
+    }
+    fn seg(&self, sport: u16, dport: u16, seq: u32, ack: u32, flags: u16, payload: &[u8]) -> Vec<u8> {
+        let f = TcpFields {
+            sport,
+            dport,
+            seq,
+            ack,
+            flags,
+            window: 1024,
+            urg: 0,
+            options: Vec::new(),
+        };
+        let t = tcp(&f, payload, &self.a.src, &self.a.dst);
+        frame_ip(&self.a.dmac, &self.a.smac, &self.a.src, &self.a.dst, P_TCP, &t, 64)
+    }
+}
+
+impl Actor for BannerScan {
+    fn peer(&self) -> usize {
+        self.peer
+    }
+    fn kind(&self) -> ActorKind {
+        ActorKind::Flood
+    }
+    fn start(&mut self, _rng: &mut Rng) -> Vec<Action> {
+        (0..self.n)
+            .map(|i| {
+                let (sp, dp) = self.tuple(i);
+                Action::SendAt(self.start_us + i as u64 * self.gap_us, self.seg(sp, dp, 0x1000_0000 + i, 0, F_SYN, &[]))
+            })
+            .collect()
+    }
+    fn on_frame(&mut self, frame: &[u8], _rng: &mut Rng) -> Vec<Action> {
+        let p = parse(frame);
+        let t = match p.tcp() {
+            Some(t) => t,
+            None => return Vec::new(),
+        };
+        if t.flags & 0x1ff != (F_SYN | F_ACK) || p.ip_src() != Some(self.a.dst) || p.ip_dst() != Some(self.a.src) {
+            return Vec::new();
+        }
+        // one of ours? (destination port of the SYN-ACK within the scan's source port range)
+        let off = t.dport.wrapping_sub(self.base_sport) as u32;
+        if off >= self.n.min(20000) || !self.answered.insert((t.dport, t.sport)) {
+            return Vec::new();
+        }
+        vec![Action::Send(self.seg(t.dport, t.sport, t.ack, t.seq.wrapping_add(1), F_PSH | F_ACK, &self.probe))]
+    }
+    fn describe(&self) -> String {
+        format!(
+            "banner scan of {} connections {} -> {} ports {:?} every {} us, probe {} bytes",
+            self.n,
+            self.a.src,
+            self.a.dst,
+            self.dports,
+            self.gap_us,
+            self.probe.len()
+        )
+    }
+}
+
 // ------------------------------------------------------------------- twins
 
 impl TcpClient {
